@@ -194,6 +194,18 @@ theorem C08_comment_iff (t rest : Bytes) :
     rw [endPos_of_accepted (accepted_of_not_closing side_comment_covers h)]
     simp only [Option.map_some, Option.some.injEq]; omega
 
+/-- Sufficiency with the token's data: for an accepted text the comment token emitted at the final
+`-->` carries exactly the inserted text (a WHATWG tokenizer records U+0000 as U+FFFD, `nulMap`). -/
+theorem C08_comment_data (t rest : Bytes) (h : containsCommentClosingSequence t = false) :
+    commentAt (Gen.Consts.commentOpen ++ t ++ Gen.Consts.commentClose ++ rest)
+      = some (nulMap t, 4 + t.length + 3) := by
+  rw [side_comment_serialise.1, side_comment_serialise.2]
+  have := run_of_accepted (accepted_of_not_closing side_comment_covers h) rest
+  simp only [List.cons_append, List.nil_append, commentAt, afterOpen, List.append_assoc] at this ⊢
+  rw [this]
+  simp only [Option.map_some, Option.some.injEq, Prod.mk.injEq, true_and]
+  omega
+
 /-- The same at the level of the setter and the serialiser: after a successful `set_text` in a UTF-8
 document, the serialised comment, followed by anything, is tokenised as one comment spanning exactly
 the serialised bytes. -/
@@ -335,6 +347,35 @@ theorem C08_attribute_reads_back (n o v : Bytes) (h : attrNameFromString Codec.u
 example : Attribute.serialize ⟨[97], [34, 62, 60, 120, 32, 121, 61, 34], none⟩
     = some [97, 61, 34, 38, 113, 117, 111, 116, 59, 62, 60, 120, 32, 121, 61, 38, 113, 117, 111, 116, 59, 34] := by
   decide
+
+/-- `set_attribute` lower-cases the name before validating it (attributes.rs:231); in a UTF-8
+document the validated name — the second argument of every `eq_case_insensitive` call — therefore
+has no byte in `A`..`Z`, which is what that function's `debug_assert!` (base/mod.rs:23) requires.
+(Not so in encodings whose multi-byte sequences use trail bytes in that range: docs/pkg-esc.md,
+finding 2.) -/
+theorem C08_attr_name_lowercased (n o : Bytes)
+    (h : attrNameFromString Codec.utf8 (asciiLowerBytes n) = .ok o) :
+    ∀ b ∈ o, ¬ (65 ≤ b ∧ b ≤ 90) := by
+  obtain ⟨ho, _, _⟩ := attrName_ok_iff.mp h
+  rw [ho]
+  intro b hb
+  simp only [asciiLowerBytes, List.mem_map] at hb
+  obtain ⟨x, _, hx⟩ := hb
+  rw [← hx]
+  unfold asciiLower
+  split
+  · rename_i hc
+    simp only [Bool.and_eq_true, decide_eq_true_eq] at hc
+    intro hcon
+    have h1 := UInt8.le_iff_toNat_le.mp hc.1
+    have h2 := UInt8.le_iff_toNat_le.mp hc.2
+    have h3 := UInt8.le_iff_toNat_le.mp hcon.2
+    have h4 : (x + 32).toNat = x.toNat + 32 := by
+      rw [UInt8.toNat_add]; simp at h1 h2 ⊢; omega
+    simp at h1 h2 h3; omega
+  · rename_i hc
+    simp only [Bool.and_eq_true, decide_eq_true_eq] at hc
+    exact hc
 
 /-! ## C08_reject_unchanged -/
 
